@@ -287,6 +287,7 @@ C04.vis: parts that are not PER-visible (X.691 10.3.21; a PATTERN constraint sta
     }
     let _ = n_plain;
 
+    endpoints(m, ctx, &consts);
     serial(m, ctx, &consts);
     render(m, ctx, &consts);
     outer_marker(m, ctx);
@@ -450,5 +451,61 @@ fn outer_marker(m: &Model, ctx: &mut Ctx) {
     let b = tok(&f.block);
     if !(b.contains("(&mut per_visible,c.extensible)") && b.contains("per_visible.extensible=true")) {
         ctx.violate("C04.ext", "outer-marker", &f.file, f.line, "an extension marker after the element set (`(1..5, ...)`) must make the emitted bound extensible");
+    }
+}
+
+/// C04.refs: "value references in a constraint are resolved" — the linker's visit of a constraint element
+/// (SubtypeElements::link_cross_reference) reaches every end point that is present: a single value, the lower end of a
+/// range whether or not the upper end is MAX, the upper end whether or not the lower end is MIN.
+fn endpoints(m: &Model, ctx: &mut Ctx, consts: &dyn Fn(&str) -> Option<Val>) {
+    let Some(f) = m.fns.iter().find(|f| f.name == "link_cross_reference" && f.self_ty.as_deref() == Some("SubtypeElements")) else {
+        ctx.fail_closed("C04.refs", "anchor not found: SubtypeElements::link_cross_reference");
+        return;
+    };
+    ctx.func(&f.key);
+    // an end point written "REF" answers the link call with Err(LINKED) so that reaching it is observable as the
+    // fn's result; an end point written "SKIP" links fine
+    let hook = |_: &Evaluator, name: &str, a: &[Val]| -> Option<Result<Val, String>> {
+        match (name, a.first()) {
+            (".link_elsewhere_declared", Some(Val::Str(s))) => Some(Ok(if s == "REF" { Val::Ctor("Err".into(), vec![Val::Str("LINKED".into())], BTreeMap::new()) } else { Val::Ctor("Ok".into(), vec![Val::Unit], BTreeMap::new()) })),
+            (".as_mut", Some(v)) | (".as_ref", Some(v)) if a.len() == 1 => Some(Ok(v.clone())),
+            _ => None,
+        }
+    };
+    let ev = Evaluator { consts, call_hook: &hook, inline: None };
+    let params: Vec<String> = f.sig.inputs.iter().filter_map(|a| match a { syn::FnArg::Typed(t) => Some(tok(&t.pat)), _ => None }).collect();
+    let opt = |s: Option<&str>| s.map(|x| Val::some(Val::Str(x.into()))).unwrap_or(Val::none());
+    let range = |lo: Option<&str>, hi: Option<&str>| {
+        let mut fm = BTreeMap::new();
+        fm.insert("min".to_string(), opt(lo));
+        fm.insert("max".to_string(), opt(hi));
+        fm.insert("extensible".to_string(), Val::Bool(false));
+        Val::Ctor("ValueRange".into(), vec![], fm)
+    };
+    let single = {
+        let mut fm = BTreeMap::new();
+        fm.insert("value".to_string(), Val::Str("REF".into()));
+        fm.insert("extensible".to_string(), Val::Bool(false));
+        Val::Ctor("SingleValue".into(), vec![], fm)
+    };
+    for (what, v) in [
+        ("single value", single),
+        ("lower end of ref..MAX", range(Some("REF"), None)),
+        ("upper end of MIN..ref", range(None, Some("REF"))),
+        ("lower end of ref..n", range(Some("REF"), Some("SKIP"))),
+        ("upper end of n..ref", range(Some("SKIP"), Some("REF"))),
+    ] {
+        ctx.oblige("C04.refs", what, true);
+        let mut env = Env::new();
+        env.insert("self".into(), v);
+        for p in &params {
+            env.insert(p.clone(), Val::Opaque(p.clone()));
+        }
+        match ev.eval_fn_body(&f.block, &mut env) {
+            Ok(Val::Ctor(n, p, _)) if n == "Err" && p.first() == Some(&Val::Str("LINKED".into())) => {}
+            Ok(o) => ctx.violate("C04.refs", &format!("endpoint-not-linked:{}", what.replace(' ', "-")), &f.file, f.line,
+                &format!("link_cross_reference does not reach the {} (result {}): a value reference written there stays unresolved and the bound is silently treated as absent", what, o.show())),
+            Err(e) => ctx.fail_closed("C04.refs", &format!("[{}]: {}", what, e)),
+        }
     }
 }
